@@ -194,7 +194,10 @@ func runConcCase(t *testing.T, c *CCase) (scheds [][]string, lines []string, fin
 					switch {
 					case pv != nil:
 						results[i] = " P"
-					case rerr != nil && resp == nil:
+					case rerr != nil:
+						if resp != nil && resp.Body != nil {
+							_ = resp.Body.Close()
+						}
 						results[i] = " E"
 					case resp == nil:
 						results[i] = " Z"
